@@ -167,6 +167,20 @@ func FocusParams(t *rapid.T, seedTag, shape string, excl func(string) bool) sim.
 	p.Evidence.AllegationPercentage = int64(sample(u, []int{50, 50, 34, 66}, "allegpct"))
 	p.Evidence.PenaltyBountyPercentage = int64(sample(u, []int{50, 50, 100, 0}, "bountypct"))
 	p.Evidence.PenaltyBurnPercentage = 100 - p.Evidence.PenaltyBountyPercentage
+	// the shares are fractions percentage/decimals with decimals of their own: "13.43 %, stored as 1343 / 10000"
+	if bd := int64(sample(u, []int{100, 100, 100, 1000, 10000}, "bountydec")); bd != 100 {
+		p.Evidence.PenaltyBountyPercentage *= bd / 100
+		p.Evidence.PenaltyBurnPercentage *= bd / 100
+		p.Evidence.PenaltyBountyDecimals, p.Evidence.PenaltyBurnDecimals = bd, bd
+		if p.Evidence.PenaltyBountyPercentage > 0 && sample(u, []int{0, 1}, "bountyodd") == 1 {
+			p.Evidence.PenaltyBountyPercentage = bd*1343/10000 + 1
+			p.Evidence.PenaltyBurnPercentage = bd - p.Evidence.PenaltyBountyPercentage
+		}
+	}
+	if pd := int64(sample(u, []int{100, 100, 100, 1000, 10000}, "basedec")); pd != 100 {
+		p.Evidence.PenaltyBasePercentage *= pd / 100
+		p.Evidence.PenaltyBaseDecimals = pd
+	}
 	ProtectParams(&p, excl)
 	return p
 }
